@@ -26,8 +26,8 @@ for n in range(0, 6):
           {"t": "central", "pi": 1, "poly": [(1, V("x"))], "k": 2, "val": n},
           {"t": "cumulant", "pi": 1, "poly": [(1, V("x"))], "k": 2, "val": n},
           {"t": "cumulant", "pi": 1, "poly": [(1, V("x"))], "k": 4, "val": -2 * n},
-          {"t": "supp", "pi": 1, "v": "b", "vals": [0, 1], "start": 0},
-          {"t": "supp", "pi": 1, "v": "x", "vals": [0, 1, -1, 2, -2], "start": 0},
+          {"t": "supp", "pi": 1, "v": "b", "vals": [0, 1], "start": 0, "exempt": True},
+          {"t": "supp", "pi": 1, "v": "x", "vals": [0, 1, -1, 2, -2], "start": 0, "exempt": True},
           {"t": "rec", "pi": 1, "lhs": [(1, V("x", 2))], "rhs": [(1, [(1, V("x", 2))])], "k": 1},
           {"t": "recpt", "pi": 1, "lhs": [(1, V("x", 2))], "rhsp": [(1, V("x", 2)), (1, ONE)]},
           {"t": "equiv", "a": 1, "b": 1, "va": ["x", "y"], "vb": ["x", "y"]},
